@@ -1,10 +1,10 @@
 SPECIFICATION Spec
 CONSTANTS
-  MaxOff = 5
+  MaxOff = 6
   RollAt = 2
   NDel = 2
   NCons = 2
-  NGet = 1
+  NGet = 2
   MaxDel = 2
   FixStale = TRUE
 VIEW view
